@@ -497,9 +497,21 @@ func (w *worker) outSum() int64 {
 
 const maxRounds = 6
 
-// rest is harn.AggRest with a bound: it gives up when the number of lines the
-// catch-all route has seen explodes (a ping-pong between table and aggregator
-// never leaves the inbox empty for long).
+// rest waits until the aggregator has completely processed everything it was
+// handed so far (points and ticks). Like harn.AggRest it first observes the
+// inbox empty; the synchronous round-trip through the single-threaded run loop
+// is a tick that closes nothing (its time is the current clock: every open
+// bucket is younger than clock - wait) instead of Snapshot(): the tick channel
+// is unbuffered, so the run loop accepts it only between two messages, i.e.
+// after the previous point or the previous tick's flush has been processed
+// completely. (Snapshot allocates a copy of the aggregator per call; with
+// several barriers per operation the garbage collector, which has to rescan the
+// table's 100000-slot bad-metrics channel in every cycle, dominated the run
+// time. C11_BARRIER=snapshot switches back to harn.AggRest's round-trip.)
+// harn.AggRest itself is used at the end of every history.
+// The wait is bounded: it gives up when the number of lines the catch-all
+// route has seen explodes (a ping-pong between table and aggregator never
+// leaves the inbox empty for long).
 func (w *worker) rest(a *aggregator.Aggregator, maxLines int) bool {
 	for spins := 0; a.VerifInLen() > 0; spins++ {
 		runtime.Gosched()
@@ -507,9 +519,19 @@ func (w *worker) rest(a *aggregator.Aggregator, maxLines int) bool {
 			return false
 		}
 	}
+	if tickBarrier {
+		for _, la := range w.aggs {
+			if la.a == a {
+				la.tick <- w.now()
+			}
+		}
+		return true
+	}
 	a.Snapshot()
 	return true
 }
+
+var tickBarrier = os.Getenv("C11_BARRIER") != "snapshot"
 
 func (w *worker) restAll(maxLines int) bool {
 	for _, a := range w.aggs {
@@ -853,6 +875,33 @@ func (w *worker) runTable(ti int, spec tspec, sts [][]byte, points int, upto int
 			// closing tick: leaves every aggregator empty for the next history
 			step(si, len(st), opTick, 0, state)
 			nsteps++
+		}
+		if !looped && firstBad < 0 {
+			// end of the history: harn.AggRest on every aggregator (the flushes of the ticks that
+			// served as barriers are over as well), sentinels; nothing may have happened since the
+			// last checked step
+			in0, out0, c0 := w.inSum(), w.outSum(), w.counters()
+			for _, a := range w.aggs {
+				harn.AggRest(a.a)
+			}
+			w.sentinels()
+			atomic.AddInt64(&w.progress, 1)
+			var late []string
+			if w.inSum() != in0 || w.outSum() != out0 || w.counters() != c0 {
+				late = append(late, fmt.Sprintf("late-activity: counters moved after the last operation had come to rest (aggregator in %+d, out %+d; table %+v -> %+v)", w.inSum()-in0, w.outSum()-out0, c0, w.counters()))
+			}
+			for ri, c := range w.caps {
+				got, sent := c.take()
+				if ri == len(w.caps)-1 {
+					w.sentSeen += sent
+				}
+				if len(got) > 0 {
+					late = append(late, fmt.Sprintf("late-output: route %s was handed %q after the last operation had come to rest", routeSpecs[ri].Key, got))
+				}
+			}
+			if len(late) > 0 {
+				noteBad(nsteps-1, "end of history", late)
+			}
 		}
 		if firstBad >= 0 {
 			// a failing history is reported when it shows a kind of problem not yet reported for this
